@@ -42,6 +42,7 @@ type sim struct {
 	nodes []*simNode
 	log   core.LogHasher
 	frng  *core.Rng // fault stream
+	model bool      // refinement against refspec armed
 	step  int
 	stop  bool
 }
@@ -75,6 +76,10 @@ func guard(f func()) (p *panicInfo) {
 	}()
 	f()
 	return nil
+}
+
+func wrapState(st common.BeaconState) *beacon.StandardUpgradeableBeaconState {
+	return &beacon.StandardUpgradeableBeaconState{BeaconState: st}
 }
 
 func unwrap(st common.BeaconState) common.BeaconState {
@@ -364,6 +369,15 @@ func (s *sim) checkImmutability() {
 		}
 		now := serializeState(b.post.st)
 		s.res.Stat("immutability_checks", 1)
+		// the cloned context stored with it must still describe that state
+		saved := len(s.res.Violations)
+		s.checkContext(nil, b.post, fmt.Sprintf("stored post-state of the block at slot %d, re-checked later", b.slot))
+		if len(s.res.Violations) > saved {
+			v := &s.res.Violations[len(s.res.Violations)-1]
+			v.Property = "C15"
+			v.Signature = "C15/clone-independence/stored-" + strings.TrimPrefix(v.Signature, "C08/")
+			return
+		}
 		if !bytes.Equal(now, b.postSSZ) {
 			s.viol("C15", "copy-independence/stored-state-changed", fmt.Sprintf("the stored post-state of block at slot %d changed after descendants/siblings derived from copies of it were advanced (%d -> %d bytes, or content)", b.slot, len(b.postSSZ), len(now)))
 			return
@@ -525,6 +539,12 @@ func (s *sim) afterState(n *simNode, box *stateBox, where string) {
 	if s.stop {
 		return
 	}
+	if s.model && (s.opt.Property == "C07" || s.frng.Chance(1, 6)) {
+		s.checkCommittees(box, where)
+		if s.stop {
+			return
+		}
+	}
 	if s.opt.Property == "C15" && s.frng.Chance(1, 2) || s.frng.Chance(1, 12) {
 		s.checkAccessors(box, where)
 	}
@@ -542,6 +562,10 @@ func (s *sim) tick(n *simNode, slot uint64) {
 		return
 	}
 	var err error
+	var preTick *stateBox
+	if s.model {
+		preTick, _ = n.ticked.copy()
+	}
 	if p := guard(func() { err = common.ProcessSlots(context.Background(), s.w.spec, n.ticked.epc, n.ticked.st, common.Slot(slot)) }); p != nil {
 		s.viol("C02", "panic/ProcessSlots/"+p.frame, p.val)
 		return
@@ -551,6 +575,11 @@ func (s *sim) tick(n *simNode, slot uint64) {
 		return
 	}
 	s.res.Stat("slot_ticks", 1)
+	if s.model && preTick != nil {
+		if !s.checkSlotsStep(preTick, n.ticked, slot, fmt.Sprintf("node %d tick", n.id)) {
+			return
+		}
+	}
 	s.afterState(n, n.ticked, fmt.Sprintf("node %d ticked to slot %d", n.id, slot))
 }
 
@@ -577,6 +606,10 @@ func run(cfg *Config, opt core.Options, res *core.Result) *sim {
 		return nil
 	}
 	s := &sim{w: w, cfg: cfg, opt: opt, res: res, frng: core.NewRng(cfg.Seed ^ 0xfa17)}
+	switch opt.Property {
+	case "C01", "C02", "C03", "C07", "C13":
+		s.model = true
+	}
 	for i := 0; i < cfg.Nodes; i++ {
 		n := &simNode{id: i, states: map[common.Root]*stateBox{}, ticker: i%2 == 1, restarts: i == 2 || (cfg.Nodes < 3 && i == 0)}
 		g, _ := w.genesis.post.copy()
@@ -586,6 +619,15 @@ func run(cfg *Config, opt core.Options, res *core.Result) *sim {
 			n.tickedOn = w.genesis.root
 		}
 		s.nodes = append(s.nodes, n)
+	}
+	if opt.Property == "C14" {
+		s.checkBuiltinConstants()
+	}
+	if opt.Property == "C13" {
+		s.checkGenesisLogs()
+		if s.stop {
+			return s
+		}
 	}
 	s.afterState(s.nodes[0], s.nodes[0].states[w.genesis.root], "genesis")
 	partitioned := -1
@@ -626,6 +668,12 @@ func run(cfg *Config, opt core.Options, res *core.Result) *sim {
 				w.head = blk
 			}
 			res.Stat("blocks_produced", 1)
+			if s.model {
+				s.checkBlockStep(parent, blk)
+				if s.stop {
+					break
+				}
+			}
 			res.Stat("blocks_fork_"+forkName(blk.post.st), 1)
 			for bit, name := range []string{"attestations", "proposer_slashing", "attester_slashing", "deposit", "exit", "sync_aggregate", "payload", "withdrawals", "bls_change", "blobs"} {
 				if blk.kinds&(1<<uint(bit)) != 0 {
